@@ -292,8 +292,11 @@ def run(ctx):
     ctx.rule("R2.sanitiser", "clamp_p_value: !is_finite -> constant 1.0; else f64::clamp(p, 1e-15, 1.0)", floor=2)
     ctx.rule("R3.switch-over-agreement", "exact_mw_feasible receives the two complementary side sizes at every call site", floor=3, shape_dependent=True)
 
+    ctx.rule("R5.median-needs-total-order", "median_in_place reads its (one or two) middle positions from a totally sorted slice", floor=1)
+    ctx.rule("R6.step-up-scans-every-rank", "benjamini_hochberg: sort, then one scan over every ordered p-value keeps the largest passing rank; no return before the scan", floor=1)
     ctx.rule("R4.memo-independent-of-call-arguments", "a lazily filled cache (Option::get_or_insert_with / OnceCell::get_or_init on a field of self) is computed from self's state only, never from the arguments of the call that happens to fill it", floor=1)
     memo_rule(ctx, prog)
+    order_statistic_rules(ctx, prog)
 
     R = Ranges(prog)
     ctx.extra["unknown_calls_in_range_analysis"] = sorted(set(R.unknown))[:20]
@@ -376,6 +379,66 @@ def run(ctx):
         ctx.ob("R3.switch-over-agreement", f"{b.key.replace('cbh_stats::', '')}#{n}", complementary, b.loc(t["span"]),
                f"arguments: first from fields {sorted(f0) or '-'}, second from fields {sorted(f1) or '-'} via {sorted(k1) or '-'}; "
                f"second = (total - first), the sibling field n2, or the same half: {complementary}")
+
+
+def order_statistic_rules(ctx, prog):
+    """Two shape clauses about order statistics: (R5) a median that reads two middle positions needs a totally ordered slice
+    (a selection orders only around one index); (R6) the Benjamini-Hochberg step-up cutoff is the LARGEST passing rank, so the
+    rank scan must look at every ordered p-value and nothing may decide the outcome before it."""
+    from ..analysis import loop_visits_all, POSITIONAL_CUT
+    SORTS = ("sort", "sort_unstable", "sort_by", "sort_unstable_by", "sort_by_key", "sort_unstable_by_key", "sort_by_cached_key", "sort_floats")
+    b = prog.one("stats::median_in_place")
+    if b is None:
+        ctx.missing("R5.median-needs-total-order", "stats::median_in_place")
+    else:
+        ctx.fn(b)
+        gets = [(bb, t) for bb, t in b.calls() if t["callee"].get("method") in ("get", "get_unchecked", "index") and "slice" in callee_key(t["callee"]) and not b.blocks[bb].cleanup]
+        sorts = [(bb, t) for bb, t in b.calls() if t["callee"].get("method") in SORTS]
+        sels = [(bb, t) for bb, t in b.calls() if (t["callee"].get("method") or "").startswith("select_nth")]
+        dom = b.dominators(unwind=False)
+        two = len(gets) >= 2
+        ok = bool(sorts) and all(any(sb in dom[gb] for sb, _ in sorts) for gb, _ in gets)
+        if not sorts and sels and not two:
+            ok = True   # one selection, one position read
+        ctx.ob("R5.median-needs-total-order", "median_in_place", ok, b.loc(),
+               f"positions read: {len(gets)}; total sorts dominating them: {[t['callee'].get('method') for _b, t in sorts]}; selections: {[t['callee'].get('method') for _b, t in sels]}"
+               + ("" if ok else " - select_nth orders the slice around ONE index only; the other middle element read is then not an order statistic"))
+    bh = prog.one("stats::benjamini_hochberg")
+    if bh is None:
+        ctx.missing("R6.step-up-scans-every-rank", "stats::benjamini_hochberg")
+        return
+    ctx.fn(bh)
+    sorts = [(bb, t) for bb, t in bh.calls() if t["callee"].get("method") in SORTS]
+    # the scan: a loop whose body compares a p-value with a threshold (Le/Lt/Ge/Gt on floats) and assigns the rank
+    scans = []
+    for bb, t in bh.calls():
+        if t["callee"].get("method") != "next" or not bh.in_loop(bb) or bh.blocks[bb].cleanup:
+            continue
+        from ..analysis import loop_blocks
+        lp = loop_blocks(bh, bb)
+        cmps = [st for x in lp for st in bh.blocks[x].stmts if st["k"] == "assign" and st["rv"]["k"] == "binop" and st["rv"]["op"] in ("Le", "Lt", "Ge", "Gt")
+                and "f64" in bh.local_ty(op_local(st["rv"]["a"]) if op_local(st["rv"]["a"]) is not None else 0)["s"]]
+        if cmps:
+            scans.append((bb, t))
+    ok = len(scans) == 1 and len(sorts) >= 1
+    det = f"sorted first: {bool(sorts)}; threshold scans: {len(scans)}"
+    if ok:
+        sbb = scans[0][0]
+        okv, dv = loop_visits_all(bh, sbb, cutters=POSITIONAL_CUT)
+        from ..analysis import skips_only_via
+
+        def _empty_exit(u, v, src, lab):
+            # an early answer for an empty input decides nothing
+            if src.get("kind") == "call" and src["term"]["callee"].get("method") == "is_empty":
+                return lab != 0
+            return False
+        okp, _edges = skips_only_via(bh, [sbb], _empty_exit)
+        dom = bh.dominators(unwind=False)
+        sorted_first = any(x in dom[sbb] for x, _ in sorts)
+        ok = okv and okp and sorted_first
+        det += f"; {dv}; every return passes the scan: {okp}; the scan runs over the sorted values: {sorted_first}"
+    ctx.ob("R6.step-up-scans-every-rank", "benjamini_hochberg", ok, bh.loc(), det +
+           ("" if ok else " - the step-up cutoff is the largest rank that clears (k/m)q: a decision taken before or without the full scan misses a later rank that passes"))
 
 
 def _root(b, op):
